@@ -200,6 +200,19 @@ void vs_unname(const void *addr)
         }
 }
 
+/* like vs_unname, but only the entry that carries this name: the address may have been named again (memory handed out
+ * anew and named by another thread) since the object called `name` was released */
+void vs_unname_named(const void *addr, const char *name)
+{
+    for (int i = nnames - 1; i >= 0; i--)
+        if (names[i].base == (const char *)addr && !strcmp(names[i].name, name)) {
+            if (logf)
+                fprintf(logf, "U %s\n", names[i].name);
+            names[i].base = NULL;
+            return;
+        }
+}
+
 static const char *unit_name(char *buf, size_t n)
 {
     const void *u = unit_fn ? unit_fn() : NULL;
